@@ -704,6 +704,16 @@ impl<Front: SocketHandler> ConnectionH1<Front> {
                         stream.front.clear();
                         // do not stream.front.storage.clear() because of H1 pipelining
                         stream.attempts = 0;
+                        // The slot serves the next request of the connection: forget
+                        // the end-of-stream marks and DATA counters an HTTP/2 backend
+                        // connection left on it, like `Context::create_stream` does
+                        // when it recycles a slot. With a stale
+                        // `back_received_end_of_stream` the HTTP/2 backend side takes
+                        // the next response's HEADERS for a frame on a closed stream.
+                        stream.front_received_end_of_stream = false;
+                        stream.back_received_end_of_stream = false;
+                        stream.front_data_received = 0;
+                        stream.back_data_received = 0;
                         // Transition back to Idle so buffered pipelined requests
                         // trigger a phase transition on the next readable() call.
                         stream.state = StreamState::Idle;
